@@ -131,7 +131,15 @@ impl ScriptedServer {
                                     rec(raw, p, m);
                                     write_segmented(&mut s, &bytes, &seg, gap_us).ok();
                                     if linger_ms > 0 {
-                                        std::thread::sleep(Duration::from_millis(linger_ms));
+                                        // keep the connection open (as a keep-alive origin does), but notice when the peer goes away
+                                        let end = Instant::now() + Duration::from_millis(linger_ms);
+                                        s.set_read_timeout(Some(Duration::from_millis(25))).ok();
+                                        let mut t = [0u8; 64];
+                                        while Instant::now() < end {
+                                            if let Ok(0) = s.read(&mut t) {
+                                                break;
+                                            }
+                                        }
                                     }
                                 }
                                 Play::Silence { hold_ms } => {
